@@ -87,6 +87,31 @@ def xml_same(a: str, b: str, ordered: bool):
     return _unordered(ta) == _unordered(tb), ta, tb
 
 
+def irregular_interleaving(t) -> bool:
+    """Selector of F29: some element has repeated children that are interleaved with others, and the child
+    names are not k identical rounds of one tuple of distinct names with the singles outside the repeating
+    run (the only interleaving the generated 'sequence' lists can replay)."""
+    kids = [tuple(c["name"]) for c in t["content"] if isinstance(c, dict)]
+    seen = set()
+    noncontig = False
+    for i, n in enumerate(kids):
+        if n in seen and kids[i - 1] != n:
+            noncontig = True
+        seen.add(n)
+    if noncontig:
+        names = list(dict.fromkeys(kids))
+        counts = {n: kids.count(n) for n in names}
+        rounds = max(counts.values())
+        rep = [n for n in names if counts[n] == rounds]
+        idx = [i for i, n in enumerate(kids) if n in rep]
+        regular = (all(counts[n] in (1, rounds) for n in names)
+                   and [kids[i] for i in idx] == rep * rounds
+                   and idx == list(range(idx[0], idx[-1] + 1)))
+        if not regular:
+            return True
+    return any(irregular_interleaving(c) for c in t["content"] if isinstance(c, dict))
+
+
 def strip_nulls(x):
     if isinstance(x, dict):
         return {k: strip_nulls(v) for k, v in x.items() if v is not None and v != []}
@@ -122,11 +147,17 @@ def run(ctx):
         if len(ctx.samples) < 2 and n % 40 == 1:
             ctx.sample({"samples": [sample_xml(c["tns"], c["attrs"], d, k) for k, d in enumerate(c["samples"])]})
     ctx.extra["sample_sets"] = n
+    # the reproducer of F29 (irregular interleaving) and its regular counterpart, in every run
+    xml_files(ctx, {"s0.xml": "<Root><b>-7</b><c>1</c><d>a b</d><b>1</b><b>-7</b><c>1</c><d>a b</d></Root>"})
+    xml_files(ctx, {"s0.xml": "<Root><h>1</h><b>-7</b><c>1</c><d>a b</d><b>1</b><c>2</c><d>t</d><z>9</z></Root>"})
     cg.cleanup_all()
 
 
 def xml_case(ctx, c, n):
-    files = {f"s{k}.xml": sample_xml(c["tns"], c["attrs"], d, k) for k, d in enumerate(c["samples"])}
+    xml_files(ctx, {f"s{k}.xml": sample_xml(c["tns"], c["attrs"], d, k) for k, d in enumerate(c["samples"])})
+
+
+def xml_files(ctx, files):
     gen = cg.generate(files, sorted(files))
     try:
         info = {"samples": files}
@@ -156,7 +187,10 @@ def xml_case(ctx, c, n):
             # interleave the same names differently cannot all be reproduced by one model
             same, ta, tb = xml_same(text, out, ordered=len(files) == 1)
             if not same:
-                ctx.violation(f"sample {name} is not reproduced: {out}", {**info, "sample": text, "out": out, "source": src})
+                tags = []
+                if len(files) == 1 and _unordered(ta) == _unordered(tb) and irregular_interleaving(ta):
+                    tags = ["F29"]     # same elements and values, only the sibling order of an irregular interleaving differs
+                ctx.violation(f"sample {name} is not reproduced: {out}", {**info, "sample": text, "out": out, "source": src, "finding_tags": tags})
     finally:
         gen.cleanup()
 
